@@ -1623,6 +1623,12 @@ func (db *DB) buildTxFrameOffsets(walFile *os.File) (_ map[uint32]int64, commit,
 			return nil, 0, 0, 0, 0, errNoTransaction
 		}
 
+		// A frame is only valid if it names a page: page numbers start at 1.
+		if binary.BigEndian.Uint32(frame[0:]) == 0 {
+			TraceLog.Printf("[buildTxFrames(%s)]: msg=page-zero offset=%d", db.name, offset)
+			return nil, 0, 0, 0, 0, errNoTransaction
+		}
+
 		// Verify checksum
 		fchksum1 := binary.BigEndian.Uint32(frame[16:])
 		fchksum2 := binary.BigEndian.Uint32(frame[20:])
